@@ -40,6 +40,7 @@ structure PState where
   nl : Bool := false           -- emit_newline
   indent : Int := 0            -- pending_indentation
   fmt : Fmt := {}
+  located : Nat := 0           -- ghost: statement / declaration entries on a node that carries a source location, so far
   deriving Repr, Inhabited
 
 inductive Status | ok | logic | fuel
@@ -61,6 +62,17 @@ structure Opts where
 
 def strBytes (s : String) : Bytes := s.toUTF8.toList
 
+def digitByte (d : Nat) : UInt8 := if d < 10 then (48 + d).toUInt8 else (87 + d).toUInt8
+
+/-- Digits of `n` in `base` (no prefix, lower case: the stream's default `showbase` / `uppercase` are off). -/
+def renderNat (base n : Nat) : Bytes := go (n + 1) n []
+where
+  go : Nat → Nat → Bytes → Bytes
+    | 0, _, acc => acc
+    | f + 1, n, acc =>
+      let acc' := digitByte (n % base) :: acc
+      if n / base = 0 then acc' else go f (n / base) acc'
+
 namespace PState
 
 /-- Any formatted insertion resets `width` (the standard's `os.width(0)`). -/
@@ -75,15 +87,17 @@ def tok (st : PState) (s : String) (inLoc : Bool := false) : PState :=
 def raw (st : PState) (s : String) : PState := st.emit .tok false (strBytes s)
 
 /-- `operator<<(Printer&, xpr_identifier)` (io.cxx:226-234). -/
+def padBefore (st : PState) : PState := if st.pad == .before then st.emit .pad false [32] else st
+
+def writeBytes (st : PState) (tag : Tag) (bs : Bytes) : PState :=
+  if bs.isEmpty then st else st.emit tag false bs          -- Printer::write copies the bytes one by one
+
 def ident (st : PState) (tag : Tag) (bs : Bytes) : PState :=
-  let st := if st.pad == .before then st.emit .pad false [32] else st
-  let st := if bs.isEmpty then st else st.emit tag false bs          -- Printer::write copies the bytes one by one
-  { st with pad := .before }
+  { (st.padBefore.writeBytes tag bs) with pad := .before }
 
 /-- `Printer::write` followed by `Padding::None` (operator symbols, io.cxx:288-292). -/
 def write (st : PState) (bs : Bytes) : PState :=
-  let st := if bs.isEmpty then st else st.emit .spell false bs
-  { st with pad := .none }
+  { (st.writeBytes .spell bs) with pad := .none }
 
 /-- `operator<<(Printer&, newline)` (io.cxx:123-132). -/
 def newline (st : PState) : PState :=
@@ -93,7 +107,7 @@ def addIndent (st : PState) (n : Int) : PState := { st with indent := st.indent 
 
 /-- `stream << n` for an unsigned integer: digits in the stream's current base. -/
 def num (st : PState) (n : Nat) (inLoc : Bool) : PState :=
-  st.emit (.num n) inLoc ((Nat.toDigits st.fmt.base n).map fun c => c.toNat.toUInt8)
+  st.emit (.num n) inLoc (renderNat st.fmt.base n)
 
 /-- What the stream has received. -/
 def text (st : PState) : Bytes := (st.out.reverse.map Chunk.bytes).flatten
@@ -102,35 +116,42 @@ end PState
 
 /-- The escaping loop of `Primary_expr::visit(const Literal&)` (io.cxx:419-478), one input byte. -/
 def escapeByte (b : UInt8) : Bytes :=
-  if b == 10 then strBytes "\\n"
-  else if b == 13 then strBytes "\\r"
-  else if b == 12 then strBytes "\\f"
-  else if b == 9 then strBytes "\\t"
-  else if b == 11 then strBytes "\\v"
-  else if b == 8 then strBytes "\\b"
-  else if b == 7 then strBytes "\\a"
-  else if b == 92 then strBytes "\\\\"
-  else if b == 0 then strBytes "\\0"
-  else if b == 1 || b == 2 || b == 3 then strBytes "\\0" ++ [48 + b]
+  if b == 10 then [92, 110]            -- "\\n"
+  else if b == 13 then [92, 114]       -- "\\r"
+  else if b == 12 then [92, 102]       -- "\\f"
+  else if b == 9 then [92, 116]        -- "\\t"
+  else if b == 11 then [92, 118]       -- "\\v"
+  else if b == 8 then [92, 98]         -- "\\b"
+  else if b == 7 then [92, 97]         -- "\\a"
+  else if b == 92 then [92, 92]        -- "\\\\"
+  else if b == 0 then [92, 48]         -- "\\0"
+  else if b == 1 || b == 2 || b == 3 then [92, 48, 48 + b]     -- "\\0" then '0' + c
   else [b]
 
 def escape (bs : Bytes) : Bytes := (bs.map escapeByte).flatten
 
 /-- `xpr::Location_printer::print` (io.cxx:1738-1767): only nodes whose hook ends in `visit(Stmt)` / `visit(Decl)` have a
     location; it is printed when the file index is non-zero. -/
+def hasLoc (r : NodeRec) : Bool := (sinkOf r.cat == .stmt || sinkOf r.cat == .decl) && r.loc.file != 0
+
+def locColumn (r : NodeRec) (st : PState) : PState :=
+  if r.loc.col != 0 then (st.tok ":" true).num r.loc.col true else st
+
+def locToken (r : NodeRec) (st : PState) : PState :=
+  (locColumn r ((((st.tok "F" true).num r.loc.file true).tok ":" true).num r.loc.line true)).tok " " true
+
+def PState.countLocated (st : PState) : PState := { st with located := st.located + 1 }
+
 def printLoc (o : Opts) (r : NodeRec) (st : PState) : PState :=
-  if o.loc && (sinkOf r.cat == .stmt || sinkOf r.cat == .decl) && r.loc.file != 0 then
-    let st := ((st.tok "F" true).num r.loc.file true).tok ":" true
-    let st := st.num r.loc.line true
-    let st := if r.loc.col != 0 then (st.tok ":" true).num r.loc.col true else st
-    st.tok " " true
-  else st
+  if hasLoc r then (if o.loc then locToken r st.countLocated else st.countLocated) else st
+
+def PState.pendingNewline (st : PState) : PState := if st.nl then st.newline else st
 
 /-- What `operator<<(Printer&, xpr_stmt)` / `xpr_decl` do before dispatching (io.cxx:1770-1776, 1878-1884). -/
 def prelude (o : Opts) (e : Entry) (r : NodeRec) (st : PState) : PState :=
   match e with
   | .v _ _ => st
-  | _ => printLoc o r (if st.nl then st.newline else st)
+  | _ => printLoc o r st.pendingNewline
 
 /-- … and after (`if (x.needs_semicolon) printer << token(';')`). -/
 def postlude (e : Entry) (st : PState) : PState :=
@@ -164,7 +185,7 @@ def step (h : Heap) (rec : Rec) (cls : VClass) (strict : Bool) (a : Addr) (r : N
   | .kw s => ⟨st.ident .tok (strBytes s), .ok⟩
   | .idStr => ⟨st.ident .spell r.str, .ok⟩
   | .wrStr => ⟨st.write r.str, .ok⟩
-  | .litStr => ⟨if r.str.isEmpty then st else st.emit .spell false (escape r.str), .ok⟩
+  | .litStr => ⟨st.writeBytes .spell (escape r.str), .ok⟩
   | .words => ⟨r.words.foldl (fun st w => st.ident .spell w) st, .ok⟩
   | .acc e p => match follow h a p with
     | none => ⟨st, .logic⟩
